@@ -98,8 +98,9 @@ class IdSource(object):
 
 
 class World(object):
-    def __init__(self, seed):
+    def __init__(self, seed, tz=None):
         self.seed = seed
+        self.tz = tz            # the process's local time zone (POSIX TZ string); None = UTC
         self.clock = SimClock()
         self.ids = IdSource(seed)
         self.tool = SimXmlsec(random.Random(derive(seed, "crypto")), keyring())
@@ -118,10 +119,14 @@ class World(object):
         self._prev = (seams.CTX.world, seams.CTX.node)
         seams.CTX.world = self
         seams.CTX.node = None
+        if self.tz:
+            seams.set_tz(self.tz)
         return self
 
     def __exit__(self, *a):
         seams.CTX.world, seams.CTX.node = self._prev
+        if self.tz:
+            seams.set_tz("UTC")
         if self._tmp is not None:
             import shutil
             shutil.rmtree(self._tmp, ignore_errors=True)
